@@ -171,6 +171,24 @@ fn tail_letters(mode: Mode, version: u8, ptype: u8, two_mbs: bool) -> Vec<Letter
         b2.ev = vec![ev_auto(false, 0, 3, v1), e.clone()];
         tails.push((format!("intra block with two events ending in {n}"), intra(b2)));
     }
+    // blocks that are (nearly) full: n events of run 0, the last one short or escape-coded
+    for n in [61usize, 62, 63] {
+        for (fname, fin) in [("short", ev_auto(true, 0, 1, v1)), ("escape", { let mut e = esc(40); e.run = 0; e })] {
+            let mut b = Blk::dc(92);
+            b.ev = (0..n - 1).map(|k| ev_auto(false, 0, if k % 2 == 0 { 1 } else { -1 }, v1)).collect();
+            b.ev.push(fin.clone());
+            tails.push((format!("intra block with {n} events, the last one {fname}"), intra(b)));
+        }
+    }
+    if !is_i {
+        for n in [62usize, 63, 64] {
+            for (fname, fin) in [("short", ev_auto(true, 0, 1, v1)), ("escape", { let mut e = esc(40); e.run = 0; e })] {
+                let mut ev: Vec<Ev> = (0..n - 1).map(|k| ev_auto(false, 0, if k % 2 == 0 { 1 } else { -1 }, v1)).collect();
+                ev.push(fin.clone());
+                tails.push((format!("inter block with {n} events, the last one {fname}"), inter(Kind::Inter, vec![(0, 1)], Some(Blk { dc: None, ev }))));
+            }
+        }
+    }
     tails.push(("INTRADC".into(), intra(Blk::dc(200))));
     tails.push(("INTRADC 255".into(), intra(Blk::dc(255))));
     if !is_i {
